@@ -637,6 +637,7 @@ impl Check for C11 {
             v.push(PhaseSpec { name: "quads", cases: tg::op_tree_count(4), max_bytes: 0, exhaustive: true });
         }
         v.push(PhaseSpec { name: "fullparen", cases: p2 + p3, max_bytes: 0, exhaustive: true });
+        v.push(PhaseSpec { name: "selftest", cases: 1, max_bytes: 0, exhaustive: true });
         v.push(PhaseSpec { name: "lit-enum", cases: lit_enum_cases().len() as u64, max_bytes: 0, exhaustive: true });
         v.push(PhaseSpec { name: "literals", cases: tier.pick(16_000, 400_000), max_bytes: 64, exhaustive: false });
         v.push(PhaseSpec {
@@ -650,6 +651,7 @@ impl Check for C11 {
     fn make(&self, phase: &str, index: u64, bytes: &[u8], ctx: &mut Ctx) -> Case {
         let seed = ctx.seed;
         let v = match phase {
+            "selftest" => json!({"kind": "selftest"}),
             "pairs" => ops_case(2, index, seed, false, ctx),
             "triples" => ops_case(3, index, seed, false, ctx),
             "quads" => ops_case(4, index, seed, false, ctx),
@@ -679,6 +681,11 @@ impl Check for C11 {
     }
     fn judge(&self, _phase: &str, case: &Case, _ctx: &mut Ctx) -> CaseOut {
         match case.input["kind"].as_str() {
+            Some("selftest") => {
+                let (need, caught, _) = sensitivity(2);
+                let labels = if need > 0 && caught == need { vec!["selftest:sensitivity-ok".to_string()] } else { vec![] };
+                CaseOut::pass(false, 1).labelled(labels)
+            }
             Some("lit") => {
                 if let Some(g) = case.input["gated"].as_str() {
                     return CaseOut::discard(&format!("gated:{g}"));
@@ -692,12 +699,10 @@ impl Check for C11 {
     fn setup(&self, _ctx: &mut Ctx) -> Result<Value, String> {
         // the comparison must not be vacuous: a printer that omits the needed
         // parentheses has to be caught for every pair that needs them
+        // (a shortfall is not an error here: the parser under test may be the cause, and
+        // then the pairs phase reports it; the `selftest` case withholds its label, which
+        // makes a run without violations inconclusive)
         let (need, caught, good) = sensitivity(2);
-        if need == 0 || caught != need {
-            return Err(format!(
-                "sensitivity: the oracle rejected only {caught} of {need} operator pairs printed without their necessary parentheses"
-            ));
-        }
         Ok(json!({"sensitivity_pairs_needing_parens": need, "wrong_printer_caught": caught,
                   "pairs_accepted_with_correct_printer": good, "pairs": tg::op_tree_count(2)}))
     }
@@ -715,6 +720,7 @@ impl Check for C11 {
     }
     fn required_labels(&self, _tier: Tier) -> Vec<&'static str> {
         vec![
+            "selftest:sensitivity-ok",
             "shape:looser-under-tighter",
             "shape:tighter-under-looser",
             "shape:same-prec-left",
